@@ -168,12 +168,13 @@ def custom_infos():
 # ---------------------------------------------------------------- one call
 class Call:
     __slots__ = ("text", "default", "dayfirst", "yearfirst", "fuzzy", "fwt", "ignoretz", "tz", "info", "info_custom",
-                 "via", "tag")
+                 "via", "tag", "arg_factory")
     def __init__(self, text, default=datetime.datetime(2003, 9, 25), dayfirst=None, yearfirst=None, fuzzy=False,
                  fwt=False, ignoretz=False, tz=None, info=None, info_custom=False, via="str", tag=""):
         self.text, self.default, self.dayfirst, self.yearfirst = text, default, dayfirst, yearfirst
         self.fuzzy, self.fwt, self.ignoretz, self.tz = fuzzy, fwt, ignoretz, tz or TzSpec()
         self.info, self.info_custom, self.via, self.tag = info, info_custom, via, tag
+        self.arg_factory = None          # optional: builds the text argument (an overlapping stream, see c14.oracle_overlap)
 
     def kwargs(self):
         kw = {"default": self.default}
@@ -381,6 +382,8 @@ def exc_kind(e):
 
 
 def text_arg(call):
+    if getattr(call, "arg_factory", None) is not None:
+        return call.arg_factory()
     if call.via == "bytes":
         return call.text.encode("utf-8")
     if call.via == "bytearray":
